@@ -171,7 +171,7 @@ def documents(draw, max_subnets=4, max_size=3, max_hosts=7, extras=True,
         oss = ["Linux 5.4", "os-ω", "OS_2"][:nos]
         srvs = ["http/2", "80", "My Service"][:nsrv]
         procs = ["proc.exe", "p 1", "Über"][:nproc]
-    if _coin(draw, 0.12):
+    if _coin(draw, 0.2):
         # names are arbitrary: the same name may denote a service and a process (or an OS)
         which = draw(st.integers(0, 2))
         if which == 0:
@@ -361,6 +361,22 @@ def _finish(draw, doc, many=0.1):
             doc["exploits"][f"ex_{i}"] = dict(service=draw(st.sampled_from(extra)), os=draw(st.sampled_from(oss + ["none"] * len(oss))),
                                               prob=draw(st.sampled_from([1.0, 0.5, 0.9])), cost=draw(st.sampled_from([1, 2, 0.5])),
                                               access=draw(st.sampled_from(["user", "root"])))
+    if many and _coin(draw, many / 2):
+        # many processes (more than services): 15-40 more names, run by hosts, some of them escalation targets
+        k = draw(st.integers(15, 40))
+        extra = [f"p{i:02d}" for i in range(k)]
+        names = list(extra)
+        for p_ in doc["processes"]:
+            names.insert(draw(st.integers(0, len(names))), p_)
+        doc["processes"] = names
+        dense = draw(st.sampled_from([0.2, 0.5, 0.9]))
+        for cfg in doc["host_configurations"].values():
+            cfg["processes"] = list(cfg["processes"]) + [e for e in extra if _coin(draw, dense)]
+        for i in range(draw(st.integers(2, 8))):
+            doc["privilege_escalation"][f"px_{i}"] = dict(process=draw(st.sampled_from(extra)),
+                                                          os=draw(st.sampled_from(doc["os"] + ["none"])),
+                                                          prob=draw(st.sampled_from([1.0, 0.5, 0.9])), cost=draw(st.sampled_from([1, 2, 0.5])),
+                                                          access=draw(st.sampled_from(["root", "root", "user"])))
     if _coin(draw, 0.2):
         doc["_keyspell"] = draw(st.integers(1, 3))
     if _coin(draw, 0.2):
